@@ -4,7 +4,9 @@ package main
 
 import (
 	"bufio"
+	"bytes"
 	"encoding/json"
+	"fmt"
 
 	"github.com/amzn/ion-go/ion"
 )
@@ -62,6 +64,69 @@ type symtabObs struct {
 	Adds    []addObs `json:"adds"`
 	Built   tableObs `json:"built"`
 	Builder tableObs `json:"builder"`
+	// the local table written out and read back by a Reader whose catalog holds the (unadjusted) imports:
+	// "" judged, "skip" (two imports share name and version), else the error
+	RT         string   `json:"rt"`
+	ViaString  tableObs `json:"viastring"`
+	ViaWriteTo tableObs `json:"viawriteto"`
+	ViaBinary  tableObs `json:"viabinary"`
+}
+
+// rereadTable reads doc (a serialised table followed by one value) and returns the table in force at the value.
+func rereadTable(doc []byte, cat ion.Catalog) (tableObs, error) {
+	r := ion.NewReaderCat(bytes.NewReader(doc), cat)
+	if !r.Next() {
+		return tableObs{}, fmt.Errorf("no value after the table: %v", r.Err())
+	}
+	return observeTable(r.SymbolTable()), nil
+}
+
+func tableRoundTrip(c symtabCase, lt ion.SymbolTable, o *symtabObs) {
+	seen := map[string]int{}
+	var base []ion.SharedSymbolTable
+	for i, s := range c.Imports {
+		key := fmt.Sprintf("%s/%d", s.Name, s.Version)
+		if j, dup := seen[key]; dup {
+			if fmt.Sprint(c.Imports[j].Syms) != fmt.Sprint(s.Syms) {
+				o.RT = "skip"
+				return
+			}
+			continue
+		}
+		seen[key] = i
+		base = append(base, ion.NewSharedSymbolTable(string(s.Name), s.Version, strs(s.Syms)))
+	}
+	cat := ion.NewCatalog(base...)
+	var err error
+	if o.ViaString, err = rereadTable([]byte(lt.String()+"\n0"), cat); err != nil {
+		o.RT = "String(): " + err.Error()
+		return
+	}
+	var tb bytes.Buffer
+	tw := ion.NewTextWriter(&tb)
+	if err = lt.WriteTo(tw); err == nil {
+		if err = tw.WriteInt(0); err == nil {
+			err = tw.Finish()
+		}
+	}
+	if err == nil {
+		o.ViaWriteTo, err = rereadTable(tb.Bytes(), cat)
+	}
+	if err != nil {
+		o.RT = "WriteTo(text writer): " + err.Error()
+		return
+	}
+	var bb bytes.Buffer
+	bw := ion.NewBinaryWriterLST(&bb, lt)
+	if err = bw.WriteInt(0); err == nil {
+		err = bw.Finish()
+	}
+	if err == nil {
+		o.ViaBinary, err = rereadTable(bb.Bytes(), cat)
+	}
+	if err != nil {
+		o.RT = "binary writer with this table: " + err.Error()
+	}
 }
 
 var queryTexts = []string{"a", "b", "name", "c", "$ion", "z"}
@@ -120,12 +185,16 @@ func cmdSymtab(in *bufio.Scanner, out *bufio.Writer) error {
 		}
 		idx++
 		o := symtabObs{Idx: idx, Adds: []addObs{}}
+		empty := tableObs{ByID: []byIDObs{}, ByName: []byNameObs{}, BySid: []bySidObs{}, Symbols: []Bytes{}, Imports: []impObs{}}
+		o.ViaString, o.ViaWriteTo, o.ViaBinary = empty, empty, empty
 		err, pan, site := safely(func() error {
 			imps := make([]ion.SharedSymbolTable, len(c.Imports))
 			for i, s := range c.Imports {
 				imps[i] = makeShared(s)
 			}
-			o.Local = observeTable(ion.NewLocalSymbolTable(imps, strs(c.Locals)))
+			lt := ion.NewLocalSymbolTable(imps, strs(c.Locals))
+			o.Local = observeTable(lt)
+			tableRoundTrip(c, lt, &o)
 			b := ion.NewSymbolTableBuilder(imps...)
 			for _, a := range c.Adds {
 				id, added := b.Add(string(a))
